@@ -7,7 +7,7 @@ from . import seqs, maps
 
 ID = "C12"
 LEVEL = "fault_enumeration"
-BUDGET = {"quick": 1500, "thorough": 120000}
+BUDGET = {"quick": 1500, "thorough": 360000}
 RULE = ("case = a valid op prefix (generators of C02-C04/C16) bringing an Array/List/Tuple/Table/Tree/String/Range/Slice/"
         "Int to some state, then exactly ONE invalid operation from the fault matrix {get,set,push_at,pop_at,pop,rem,resize,"
         "concat,push,print_to,method call} x {index = len, -len-1, +-far, INT64_MAX, INT64_MIN; pop from empty; absent key / "
